@@ -64,10 +64,10 @@ AMPL = [
 ]
 
 
-def base_programs(tier, rng):
+def base_programs(tier, rng, light=False):
     """finite programs from the spec-driven generators (CloseStack / ErrorFlow / CoSem paths)"""
     progs = []
-    n_each = 60 if tier == "quick" else 400
+    n_each = (25 if light else 60) if tier == "quick" else (100 if light else 400)
     for cfg, battery in (("CloseStackQ.cfg", False), ("ErrorFlowQ.cfg", True)):
         txt = open(os.path.join(SPEC, cfg.replace("Q.cfg", "Sim.cfg"))).read()
         ms = int(re.search(r"MaxSteps\s*=\s*(\d+)", txt).group(1))
@@ -97,16 +97,21 @@ def ev_prefix(a, b):
 
 def run(prop, tier):
     rep = Report(prop, tier, "model_checking")
+    rep.cov.update(states=0, transitions=0, traces_validated_against_impl=0)
+    program_level(rep, prop, tier, "cpu" if prop == "C05" else "mem", build_driver())
+    return rep.finish()
+
+
+def program_level(rep, prop, tier, resource, drv, light=False):
+    """runs the program families under limits and has TLC validate the hook traces; adds to rep"""
     cov = rep.cov
-    cov.update(states=0, transitions=0, traces_validated_against_impl=0, runs=0, killed_runs=0, completed_runs=0,
-               shells=0, amplification_cases=0, trace_events=0)
-    drv = build_driver()
+    for k in ("runs", "killed_runs", "completed_runs", "shells", "amplification_cases", "trace_events"):
+        cov.setdefault(k, 0)
     rng = random.Random(seed())
     traces = []
-    resource = "cpu" if prop == "C05" else "mem"
 
     # ---------------- finite programs x limits
-    progs = base_programs(tier, rng)
+    progs = base_programs(tier, rng, light)
     cases = [{"id": i, "src": src, "cpu": BIG, "mem": BIG, "trace": "ctx", "timeout": 20000} for i, (fam, src) in enumerate(progs)]
     base = run_lua_cases(drv, cases)
     runs = []   # (prog idx, L, case)
@@ -162,7 +167,7 @@ def run(prop, tier):
     shell_cases, meta = [], []
     lims = (300, 2000, 20000) if tier == "quick" else (50, 300, 2000, 20000, 150000)
     for name, src in SHELLS:
-        for L in lims:
+        for L in (lims[:1] if light else lims):
             c = {"id": len(shell_cases), "src": src, "trace": "ctx", "timeout": 15000}
             if resource == "cpu":
                 c.update(cpu=L, mem=BIG)
@@ -196,7 +201,7 @@ def run(prop, tier):
     # ---------------- amplification: one library call with a size parameter, small limits
     acases, ameta = [], []
     Ns = (10000, 10000000, 1 << 31, 1 << 40) if tier == "quick" else (1000, 10000, 1000000, 10000000, 1 << 31, (1 << 31) + 1, 1 << 40, (1 << 62))
-    for name, body in AMPL:
+    for name, body in ([] if light else AMPL):
         for N in Ns:
             src = "local N = %d\nlocal function f() %s end\nlocal r = table.pack(pcall(f))\nemit('done', r[1])" % (N, body)
             c = {"id": len(acases), "src": src, "timeout": 20000, "alloc": True}
@@ -232,8 +237,8 @@ def run(prop, tier):
     cov["amplification_templates"] = len(AMPL)
 
     # ---------------- TLC decides: every recorded trace must be a behaviour of Quota.tla
-    cov["traces_validated_against_impl"] = len(traces)
-    cov["trace_events"] = sum(len(t) for _, t in traces)
+    cov["traces_validated_against_impl"] = cov.get("traces_validated_against_impl", 0) + len(traces)
+    cov["trace_events"] += sum(len(t) for _, t in traces)
     rejected = 0
     pending = traces
     while pending:
@@ -254,10 +259,9 @@ def run(prop, tier):
         if rejected >= 12:
             break
         pending = pending[ti + 1:]   # keep validating the remaining traces
-    cov["rejected_traces"] = rejected
+    cov["rejected_traces"] = cov.get("rejected_traces", 0) + rejected
     cov["exhaustive"] = False
-    cov["explanation"] = ("programs from the CloseStack/ErrorFlow/CoSem generators, adversarial never-ending shells and library amplification "
+    cov["explanation"] = cov.get("explanation", "") + (" | programs from the CloseStack/ErrorFlow/CoSem generators, adversarial never-ending shells and library amplification "
                           "templates run on the real runtime under limits around their own usage; context hook traces validated by TLC against Quota.tla")
     rep.assumptions += ["limits and amounts above 10^9 are clamped in the trace file (TLC integers are 32-bit)",
                         "wall-clock watchdogs and MemStats.TotalAlloc bounds are observations of the real process, not decided by the specification"]
-    return rep.finish()
